@@ -644,6 +644,7 @@ class Tr:
         if isinstance(ty, tuple):
             if ty[0] == 'struct' and ty[1] == 'RsReports': return '(List Rs.Report)'
             if ty[0] == 'struct' and ty[1] == 'RsFsm': return 'FsmSt'
+            if ty[0] == 'struct' and ty[1] == 'RsStats': return '(List Rs.Stat)'
             if ty[0] == 'struct':
                 n = self_ty if ty[1] == 'Self' else ty[1]
                 return lean_struct(n)
@@ -934,6 +935,14 @@ class Tr:
             s, t = self.ex(args[0], env)
             if t not in ('string', 'strings'): raise TranslateError(f'Err of {t}')
             return f'(Rs.Res.err {s})', ('result', 'lit', 'string')
+        if len(p) == 1 and last == 'rs_list_push' and len(args) == 2:
+            l, tl = self.ex(args[0], env); x, _ = self.ex(args[1], env, tl[1] if isinstance(tl, tuple) else None)
+            return f'({l} ++ [{x}])', tl
+        if len(p) == 1 and last == 'rs_stat' and len(args) == 3 and args[1][0] == 'path':
+            # a statistics message of the reader (`InputStatType::Kind(value)`) appended to the channel-as-value
+            o, to = self.ex(args[0], env); v, _ = self.ex(args[2], env)
+            if to != ('struct', 'RsStats'): raise TranslateError('rs_stat: first argument')
+            return f'({o} ++ [Rs.Stat.mk "{args[1][1][-1]}" {v}])', to
         if len(p) == 1 and last == 'rs_fsm_initial' and not args:
             return 'SrcFsm.initial', ('struct', 'RsFsm')          # `reset_fsm()`: the machine's initial state as extracted by src2lean.py
         if len(p) == 1 and last == 'rs_check_fold' and len(args) == 2:
@@ -1386,6 +1395,15 @@ class Tr:
             return self.ex(e[1], env, expect)
         if e[0] == 'if':
             return self.if_stmt(e, rest, env, expect, is_tail)
+        if e[0] == 'mcall' and e[2] == 'push' and len(e[3]) == 1 and self.list_place(e[1], env):
+            # `v.push(x)` on a Vec of integers: `v = v ++ [x]`
+            return self.stmts([('assign', e[1], '=', ('call', ['rs_list_push'], [e[1], e[3][0]]))] + list(rest), env, expect)
+        if e[0] == 'match' and len(e[2]) == 2 and not e[2][0][1] and not e[2][1][1] and \
+                sorted((a[0][0], tuple(a[0][1])) for a in e[2]) == [('pctor', ('Some',)), ('ppath', ('None',))]:
+            # `match o { Some(x) => A, None => B }` in statement position: `if let Some(x) = o { A } else { B }`
+            arms = {a[0][0]: a for a in e[2]}
+            def blk2(b): return list(b[1]) if b[0] == 'block' else [('expr', b, True)]
+            return self.stmts([('expr', ('if', ('iflet', arms['pctor'][0], e[1]), blk2(arms['pctor'][2]), blk2(arms['ppath'][2])), is_tail)] + list(rest), env, expect)
         if e[0] == 'match' and len(e[2]) == 2 and all(a[0][0] == 'pctor' and len(a[0][2]) == 1 and a[0][2][0][0] == 'pbind' and not a[1] for a in e[2]) \
                 and sorted(a[0][1][-1] for a in e[2]) == ['Err', 'Ok']:
             # `match r { Ok(x) => A, Err(y) => B }` on a `Result` whose error is a plain value: `let t = r; if t.is_err() {let y = ..; B} else {let x = ..; A}`
@@ -1662,6 +1680,13 @@ class Tr:
 
     def unit_result(self, env):
         return '()'
+
+    def list_place(self, x, env):
+        try:
+            _, t = self.ex(x, env)
+        except TranslateError:
+            return False
+        return isinstance(t, tuple) and t[0] == 'vec' and t[1] in INT_TYPES
 
     def is_none_field(self, x, env):
         """`self.f` (through as_ref / as_mut / & / &mut) for a field the spec declares to be `None` (spec flag `none_fields`:
